@@ -1337,7 +1337,7 @@ func (p *Path) typeAssert(instr *ssa.TypeAssert, x Iface) Value {
 	} else {
 		if !instr.CommaOk {
 			msg := fmt.Sprintf("interface conversion: interface is %v, not %v", x.T, instr.AssertedType)
-			panic(&goPanic{v: Iface{T: p.E.tString, V: msg}, msg: "runtime error: " + msg})
+			p.runtimePanic(msg)
 		}
 		v = zero(instr.AssertedType)
 	}
